@@ -125,7 +125,8 @@ Proof.
   destruct (blen (c_username k) =? 0) eqn:U0; leb_hyps; try lia; cbn [andb];
   destruct HV as [V | V]; rewrite V in *; cbn [N.eqb Pos.eqb negb andb] in *;
   change (version_name 3) with mqisdp; change (version_name 4) with mqtt;
-  repeat ostep; rewrite ?Hh in *;
-  rewrite !push_push; f_equal; (f_equal; [rewrite <- ?app_assoc; cbn [app]; rewrite ?app_nil_r; reflexivity
-                                        | rewrite ?blen_mqisdp, ?blen_mqtt; lia]).
+  repeat ostep; cbn [sbind];
+  rewrite !push_push; f_equal; f_equal;
+  solve [ rewrite <- ?app_assoc; cbn [app]; rewrite ?app_nil_r; reflexivity
+        | rewrite ?blen_mqisdp, ?blen_mqtt; lia ].
 Qed.
